@@ -111,6 +111,9 @@ func newMainWorld(p *Plan) (*mainWorld, error) {
 		}
 		host := fmt.Sprintf("log%d.example", i)
 		st := &tileStub{tree: ld.Branches[0], origin: ld.Origin, key: ld.Key, world: m.W, keyIdx: ld.KeyIdx, kind: kind, size: 1}
+		if kind == "tiles" && p.Cfg.Extra[fmt.Sprintf("ext%d", i)] != 0 {
+			st.ext = []string{fmt.Sprintf("timestamp %d", 1700000000+i), "shard fill 100% sealed"}
+		}
 		m.stubs = append(m.stubs, st)
 		m.sn.Hosts[host] = st
 		url := "http://" + host
@@ -156,7 +159,7 @@ func (m *mainWorld) start() error {
 	inst := &mainInst{ln: newMemListener(), done: make(chan error, 1)}
 	store := m.store
 	if m.dbPath != "" {
-		db, err := sql.Open("sqlite3", m.dbPath) // as cmd/omniwitness/monolith.go
+		db, err := sql.Open("sqlite3-sim", m.dbPath) // as cmd/omniwitness/monolith.go (driver wrapped so that row fetches can fail)
 		if err != nil {
 			return err
 		}
@@ -225,6 +228,7 @@ func (m *mainWorld) get(path string) (int, []byte, error) {
 }
 
 func (m *mainWorld) cleanup() {
+	mainDrvFault = nil
 	if m.dir != "" {
 		os.RemoveAll(m.dir)
 	}
@@ -383,7 +387,7 @@ func c14Exec(t *testing.T, p *Plan) (r *c14Result) {
 				st.mu.Unlock()
 				_ = curTree
 				if err != nil || (code != 200 && code != 404) {
-					add("not_caught_up", "read_failed", fmt.Sprintf("%s: GET checkpoint of log %d: status %d err %v", why, i, code, err))
+					add("not_caught_up", "read_failed", fmt.Sprintf("%s: GET checkpoint of log %d: status %d err %v body %s", why, i, code, err, short(body)))
 					continue
 				}
 				var served Stored
@@ -513,11 +517,32 @@ func c14Exec(t *testing.T, p *Plan) (r *c14Result) {
 					// while the log serves the fork, reads of the stored checkpoint inside the update transaction fail
 					// intermittently with a plain (status-less) error, as a busy or failing database would
 					seed, id := op.PV, ld.ID
-					m.storeFault = func(call, lid string, occ int) error {
-						if lid == id && splitmix(seed^uint64(occ)*0x9e3779b9)%2 == 0 {
-							return errors.New("injected: database is locked")
+					if seed%2 == 0 || m.dbPath == "" {
+						m.storeFault = func(call, lid string, occ int) error {
+							if call == "W.GetLatest" && lid == id && splitmix(seed^uint64(occ)*0x9e3779b9)%2 == 0 {
+								return errors.New("injected: database is locked")
+							}
+							return nil
 						}
-						return nil
+					} else {
+						// the same, one level down: the row fetch of the SELECT for this log fails inside the SQL driver
+						var dmu sync.Mutex
+						docc := 0
+						mainDrvFault = func(op, arg string) error {
+							if op != "Next" || arg != id {
+								return nil
+							}
+							dmu.Lock()
+							defer dmu.Unlock()
+							docc++
+							if splitmix(seed^uint64(docc)*0x9e3779b9)%2 == 0 {
+								m.storeMu.Lock()
+								m.storeFired++
+								m.storeMu.Unlock()
+								return errors.New("injected: database is locked (row fetch)")
+							}
+							return nil
+						}
 					}
 					r.stats.Fired["storage_read_faults_during_fork"]++
 				}
@@ -581,6 +606,7 @@ func init() {
 				p.Cfg.Logs = append(p.Cfg.Logs, LogCfg{Origin: fmt.Sprintf("sim.example/main%d", i), Key: i})
 				feeders = append(feeders, "tiles") // only one SumDB-shaped log can exist: its origin is fixed by the format
 				p.Cfg.Extra[fmt.Sprintf("size%d", i)] = int64(Pick(r, 1, 2, 200, 254, 255, 256, 257, 300, 65530, 65536))
+				p.Cfg.Extra[fmt.Sprintf("ext%d", i)] = int64(r.IntN(2))
 			}
 			feeders[0] = []string{"sumdb", "tiles"}[n%2]
 			if feeders[0] == "sumdb" {
